@@ -167,8 +167,8 @@ impl rustradio::block::BlockEOF for DelayCtl {
 }
 impl Block for DelayCtl {
     fn work(&mut self) -> rustradio::Result<rustradio::block::BlockRet> {
-        let k = POKE.swap(usize::MAX, std::sync::atomic::Ordering::SeqCst);
-        if k != usize::MAX {
+        let pending: Vec<usize> = std::mem::take(&mut *POKE.lock().unwrap());
+        for k in pending {
             self.inner.set_delay(k);
         }
         self.inner.work()
@@ -666,7 +666,7 @@ pub fn build_hand(name: &str, rng: &mut Rng) -> Built {
             let d = *rng.pick(&[0usize, 1, 2, 5, 40, 1500]);
             params = vec![d as u64];
             alphabets = vec![(1 << 32, vec![])];
-            POKE.store(usize::MAX, std::sync::atomic::Ordering::SeqCst);
+            POKE.lock().unwrap().clear();
             rig1::<u32, u32>(rng, |r| {
                 let (b, o) = Delay::new(r, d);
                 (Box::new(DelayCtl { inner: b }) as Box<dyn Block>, o)
@@ -1215,7 +1215,7 @@ pub fn big_step_probes(rng: &mut Rng) -> Vec<String> {
 /// against the greedy run. Chunking must not matter and nothing may panic or be written past a window.
 pub const TIGHT_NAMES: &[&str] = &[
     "symsync", "symsync_clk", "zerocross", "zerocross_clk", "fir", "fir_c", "resampler", "quaddemod", "fastfm", "iir1",
-    "hilbert", "skip", "delay", "rtlsdr", "cma", "fftfilter", "fftfilter_f",
+    "hilbert", "skip", "delay", "rtlsdr", "cma", "fftfilter", "fftfilter_f", "auenc", "fftstream",
 ];
 
 /// a tag every 1..60 samples (sometimes two on one sample): wherever a call is cut short, tags are near
@@ -1325,6 +1325,13 @@ pub fn tight_selfcheck(name: &str, rng: &mut Rng) -> Vec<String> {
         if i % 5 == 0 {
             acts.push(Act::Work);
         }
+        if i % 7 == 3 {
+            // several calls in a row with nothing changed in between: a block that cannot progress must say what
+            // it waits for, not "call me again"
+            for _ in 0..5 {
+                acts.push(Act::Work);
+            }
+        }
     }
     let acts_b = greedy_schedule(1, nout, &[len]);
     let short = request(&built_a.name, &built_a.params, &built_a.rig, &ins, &[]);
@@ -1418,6 +1425,14 @@ pub fn case(name: &str, rng: &mut Rng, steps: usize, heavy_tags: bool) -> String
             let at = rng.below(acts.len().min(steps + 8) + 1);
             let d = *rng.pick(&[0usize, 1, 2, 3, 5, 7, 40, 100, 1500]);
             acts.insert(at, Act::Poke(d));
+        }
+        // lowered and raised again before the drop the lowering asked for has been carried out
+        if rng.chance(1, 2) {
+            let at = rng.below(acts.len().min(steps + 8) + 1);
+            let lo = *rng.pick(&[0usize, 1, 2, 3]);
+            let hi = *rng.pick(&[5usize, 7, 40, 100]);
+            acts.insert(at, Act::Poke(hi));
+            acts.insert(at, Act::Poke(lo));
         }
     }
     let req = request(&built.name, &built.params, &built.rig, &ins, &acts);
